@@ -50,17 +50,17 @@ ERRK = {'missing': 'EMissing', 'nonint': 'ENotInt', 'value': 'EValue'}
 # generation
 def gen_cases(rng, tier, ctx):
     cases = []
-    n = 330 if tier == 'quick' else 4000
+    n = 330 if tier == 'quick' else 9000
     md = 5 if tier == 'quick' else 7
     for _ in range(n):
         cases.append(G.gen_case(rng, max_depth=md))
     # reduced alphabets (deeper coverage of the core fragment and of single node kinds)
     for kinds in (['const', 'table', 'seq', 'rep', 'for', 'map'], ['const', 'table', 'rev', 'seq', 'rep'],
                   ['const', 'par', 'arith', 'seq', 'map'], ['table'], ['point', 'multi', 'aarith', 'const', 'seq']):
-        for _ in range(40 if tier == 'quick' else 500):
+        for _ in range(40 if tier == 'quick' else 800):
             cases.append(G.gen_case(rng, max_depth=4, kinds=kinds))
     base = list(cases)
-    for _ in range(60 if tier == 'quick' else 600):
+    for _ in range(60 if tier == 'quick' else 1200):
         cases.append(G.malform(rng, rng.choice(base)))
     return cases
 
@@ -356,8 +356,22 @@ def classify(case, obs):
 
 
 MANIFEST = {
-    'level_text': 'Proof (staged) + correspondence: see notes/C01.md',
-    'level_note': 'see notes/C01.md',
-    'technique': 'Coq proof by induction on the template tree over an operational model + exact correspondence check',
-    'design_ref': 'DESIGN.md §5 C01',
+    'level_text': 'Proof (staged): by induction on the template tree (unbounded nesting, parameters, ranges, mappings) the '
+                  'program built by the operational model of create_program plays the independent denotation: FULL for '
+                  'the core fragment (single-channel constants under sequence / repetition / for-loop / mapping incl. '
+                  'dropped channels / time reversal; C01_denotes_core); _partial for all other node kinds (table, point, '
+                  'atomic multi-channel, atomic arithmetic, parallel channel, scalar arithmetic): proved relative to the '
+                  'atomic obligation atoms_ok and under guard_single_trafo (C01_denotes_partial); _refuted + guard for '
+                  'the known finding that ParallelChannelPT chains the enclosing transformation first '
+                  '(C01_denotes_refuted). The model is tied to /repo by an exact correspondence check (template trees '
+                  'over 12 node kinds; samples on junction-aligned and off-grid points), and the denotation is evaluated '
+                  'directly on the implementation as the specification oracle.',
+    'level_note': 'Not proved, only tested on every case: to_waveform + get_sampled equals the program meaning `play` '
+                  '(C01_sampling_statement); the atomic obligation for tables / points / multi-channel atoms and '
+                  'transformed atoms; error correspondence. Not modelled: FunctionPT, time-dependent transformation '
+                  'values, to_single_waveform, measurements, constraints, volatile parameters. Float rounding is '
+                  'modelled away (dyadic inputs). Trusted: Coq kernel, harness, numpy/sympy on the generated domain.',
+    'technique': 'Coq proof by induction on the template tree over an operational model + exact correspondence check '
+                 '+ denotational oracle evaluated in Coq on the implementation\'s samples',
+    'design_ref': 'DESIGN.md §5 C01, §4.4, Appendix D3',
 }
